@@ -126,6 +126,7 @@ type sessionEnv struct {
 	chunkTag  map[string]byte
 
 	// concurrent mode: this env belongs to one connection
+	hung        bool     // a request of this world got no answer within the waiting time
 	priv        []string // its private subtree
 	ownChunks   map[string]bool // names of the payloads this connection uploaded
 	shared      []nodeJ  // the static rest of the tree
@@ -725,6 +726,9 @@ func clampInt(v uint64) int64 {
 
 // doReq performs one scripted request; false when the connection is gone.
 func (env *sessionEnv) doReq(c *memConn, cj *connJ, r *reqJ) bool {
+	if env.hung {
+		return false
+	}
 	if r.Stream != "" {
 		b, err := hex.DecodeString(r.Stream)
 		if err != nil {
@@ -847,7 +851,10 @@ func (env *sessionEnv) exchange(c *memConn, cj *connJ, op string, req map[string
 	faultsBefore := env.ledger.FaultsApplied()
 	opsBefore := env.ledger.OpCount()
 	c.Send(frameBytes)
-	quiet := c.WaitQuiescent(60 * time.Second)
+	quiet := c.WaitQuiescent(30 * time.Second)
+	if !quiet {
+		env.hung = true // one unanswered request is enough for the verdict: the rest of this world is skipped
+	}
 	incomplete := op == "TRUNCATED"
 	stalled := false
 	if incomplete && quiet && !c.ServerClosed() {
